@@ -192,11 +192,45 @@ def run(prog, tier):
         prev = stale.get(key)
         stale[key] = [(prev[0] and ok) if prev else ok, show(node)[:60], last.node['ln']]
 
+    recarr = {}
+    RECORD_ARRAYS = {('compoundData', 'Elements'): 'nElements', ('compoundData', 'massFractions'): 'nElements', ('compoundData', 'nAtoms'): 'nElements',
+                     ('compoundDataNIST', 'Elements'): 'nElements', ('compoundDataNIST', 'massFractions'): 'nElements',
+                     ('radioNuclideData', 'XrayLines'): 'nXrays', ('radioNuclideData', 'XrayIntensities'): 'nXrays',
+                     ('radioNuclideData', 'GammaEnergies'): 'nGammas', ('radioNuclideData', 'GammaIntensities'): 'nGammas',
+                     ('Crystal_Struct', 'atom'): 'n_atom', ('compoundAtoms', 'singleElements'): 'nElements'}
+
+    def on_record_array(node, st, it, write):
+        # (a4) the array members of the library's records have as many entries as the record's count field says (the constructors establish
+        # it, C15 / C07): a subscript on such a member must be established to lie in [0, count)
+        b0 = strip_casts(node['c'][0])
+        if b0.get('k') != 'MemberExpr' or (b0.get('rec'), b0.get('field')) not in RECORD_ARRAYS:
+            return False
+        L = RECORD_ARRAYS[(b0['rec'], b0['field'])]
+        ln_ = dict(b0)
+        ln_['field'] = L
+        ln_['T'] = ln_['Ti'] = 'int'
+        key = (it.func['name'], node['ln'], node.get('col'))
+        try:
+            idx = it.eval(node['c'][1], st)
+            cnt = it.eval(ln_, st)
+            iv = it.interval_of(idx, st)
+            d = it.interval_of(idx - cnt, st)
+            ok = iv.lo is not None and iv.lo >= 0 and ((d.hi is not None and d.hi <= -1) or nonneg_split(it, st, cnt - idx - Rat.const(1), constval))
+            txt = 'index %s in %s, count %s' % (idx.canon()[:40], iv, cnt.canon()[:50])
+        except NotInClass:
+            ok, txt = False, 'index or count not analysable'
+        prev = recarr.get(key)
+        if prev is None or (prev[0] and not ok):
+            recarr[key] = [ok, show(node)[:60], txt, write, L]
+        return True
+
     def on_sub(node, st, it, write=False):
         base = node['c'][0]
         ext = extent_of(base)
         if not write and ext is not None:
             on_input_buffer(node, st, it)
+        if ext is None and on_record_array(node, st, it, write):
+            return
         if ext is None or ext < 0:
             if ext is None:
                 on_heap(node, st, it, write)
@@ -280,6 +314,64 @@ def run(prog, tier):
                    '%s %s, an element of the block allocated at line %d, but the element is not established to lie inside it (%s)' % (
                        'writes' if write else 'reads', txt, aln, detail), why='0 <= index and (index + 1) * sizeof(element) <= allocated size on every path')
     chk.floor('subscripts on blocks allocated on the same path', len(heap), 1)
+    for (fn, ln, col), (ok, txt, detail, write, L) in sorted(recarr.items()):
+        f = summ.funcs[fn]
+        chk.decide(ok, 'record-array-in-bounds', f['unit'], fn, txt, '%s:%d' % (f['rel'], ln),
+                   '%s %s, a member array that holds %s entries, with a subscript that is not established to lie in [0, %s) (%s)' % (
+                       'writes' if write else 'reads', txt, L, L, detail), why='0 <= index < %s on every path' % L)
+    # the two functions whose path count exceeds every budget (SKIP): the same obligation decided on the loop structure - the subscript is
+    # the counter of an enclosing `for (v = 0; v < R->count; v++)` over the SAME record R, or R->count - 1 (the entry just appended), or 0 in
+    # the block that allocates the first entry and sets the count
+    for fn in SKIP:
+        f = prog.func(fn, required=False)
+        if f is None:
+            continue
+
+        def rec_(n, loops, blocks):
+            if isinstance(n, list):
+                for x in n:
+                    rec_(x, loops, blocks)
+                return
+            if not isinstance(n, dict):
+                return
+            if n.get('k') == 'ForStmt':
+                var, init0 = None, False
+                for a in walk(n.get('init') or {}):
+                    if a.get('k') == 'BinaryOperator' and a.get('op') == '=':
+                        var, init0 = strip_casts(a['c'][0]).get('name'), a['c'][1].get('v') == 0
+                cond = n.get('cond') or {}
+                loops = loops + [(var, init0, cond.get('op'), show(cond['c'][1]).replace(' ', '') if cond.get('c') else None)]
+            if n.get('k') == 'CompoundStmt':
+                blocks = blocks + [n]
+            if n.get('k') == 'ArraySubscriptExpr':
+                b = strip_casts(n['c'][0])
+                if b.get('k') == 'MemberExpr' and (b.get('rec'), b.get('field')) in RECORD_ARRAYS and b.get('c'):
+                    L = RECORD_ARRAYS[(b['rec'], b['field'])]
+                    R = show(b['c'][0]).replace(' ', '')
+                    idx = strip_casts(n['c'][1])
+                    itxt = show(idx).replace(' ', '')
+                    cnt = [R + '->' + L, R + '.' + L, '(' + R + ')->' + L]
+                    ok = False
+                    if idx.get('k') == 'DeclRefExpr':
+                        lp = [l for l in loops if l[0] == idx.get('name')]
+                        ok = bool(lp) and lp[-1][1] and lp[-1][2] == '<' and lp[-1][3] in cnt
+                    elif itxt.strip('()') in [c_ + '-1' for c_ in cnt]:
+                        ok = True
+                    elif idx.get('v') == 0 and blocks:
+                        blk = blocks[-1]
+                        alloc = any(x.get('k') == 'BinaryOperator' and x.get('op') == '=' and show(x['c'][0]).replace(' ', '') in (R + '->' + b['field'], R + '.' + b['field']) and
+                                    any(c_.get('callee') in ('malloc', 'calloc', 'realloc') for c_ in calls_in(x['c'][1])) for x in walk(blk))
+                        setc = any((x.get('k') in ('BinaryOperator', 'UnaryOperator', 'CompoundAssignOperator')) and x.get('op') in ('=', '++', 'post++', 'pre++', '+=') and
+                                   show(x['c'][0]).replace(' ', '') in cnt for x in walk(blk))
+                        ok = alloc and setc
+                    chk.decide(ok, 'record-array-in-bounds', f['unit'], fn, '%s@%d' % (show(n)[:50], n['ln']), '%s:%d' % (f['rel'], n['ln']),
+                               'reads or writes %s, a member array with %s->%s entries, with a subscript that is neither the counter of an enclosing loop '
+                               'over [0, %s->%s) nor the last entry: enclosing loops %s' % (show(n)[:60], R, L, R, L, [(l[0], l[3]) for l in loops]),
+                               why='subscript bounded by %s->%s' % (R, L))
+            for k_, v in n.items():
+                if isinstance(v, (dict, list)) and k_ != 'T':
+                    rec_(v, loops, blocks)
+        rec_(f['body'], [], [])
     for (fn, ln, col), (ok, txt, fln) in sorted(stale.items()):
         f = summ.funcs[fn]
         chk.decide(ok, 'input-buffer-fresh', f['unit'], fn, '%s after fgets@%d' % (txt, fln), '%s:%d' % (f['rel'], ln),
